@@ -18,8 +18,11 @@ PROP = "C13"
 LEVEL = "proof"
 THEOREMS = {"Proofs.Props.C13": ["MsPack.Cab.C13_refused_unchanged", "MsPack.Cab.C13_ok_or_unchanged", "MsPack.Cab.C13_refuses_null",
                                  "MsPack.Cab.C13_refuses_same", "MsPack.Cab.C13_refuses_joined", "MsPack.Cab.C13_refuses_circular",
-                                 "MsPack.Cab.C13_refuses_mismatch"]}
-ASSUMPTIONS = ["order-independence of successful joins is not a theorem yet: covered by exhaustive join orders (<= 4 parts) / sampled (5 parts) on generated sets with model agreement after every call",
+                                 "MsPack.Cab.C13_refuses_mismatch"],
+            "Proofs.Props.C13Order": ["MsPack.Cab.C13_join_order_independent", "MsPack.Cab.C13_any_two_orders_agree"]}
+ASSUMPTIONS = ["C13_join_order_independent: for every well-formed set (any number of parts; `WellFormedSet` is stated on the model's heap: distinct parts, each part's tables consistent, and every two adjacent runs of parts acceptable to the model's own canMergeFolders - "
+               "a necessary condition, shown sufficient; an executable checker `wellFormedb` is proved sound) every sequence of adjacent joins by append or prepend returns OK at every step and leaves in every part exactly the expected fused folder and file lists; "
+               "that the sets a writer produces satisfy `WellFormedSet` is checked on examples (two concrete sets through the checker) and by exhaustive join orders (<= 4 parts) / sampled (5 parts) on generated sets with model agreement after every call",
                "fault-free host (allocation failure inside a join is C09/C10's subject)"]
 RULE = ("cab.sets: generated split sets of 2-5 parts (block and folder cuts, all methods); every order of the n-1 joins x append/prepend per join (exhaustive up to 4 parts in the thorough tier, sampled otherwise); "
         "listing of every part dumped after every call; cab.refused: same-cabinet, already-joined, circular and cross-set joins with dumps before/after; non-trivial = a set with a folder spanning two parts; distinct by set bytes + join order")
